@@ -12,14 +12,12 @@
    writes exactly the model's number of bytes and ends the operation exactly when the model does - in the machine
    arithmetic of the C++ (mod 2^64, `int nrOfBlocks`), for every 64-bit input. *)
 From Coq Require Import List NArith ZArith Bool Lia ZifyBool ZifyN.
-From SoftHSM Require Import Gen_Const Gen_Ops OpModel.
+From SoftHSM Require Import Gen_Const Gen_Ops OpModel OpHonest.
 Import ListNotations.
 Local Open Scope N_scope.
 Ltac Zify.zify_post_hook ::= Z.div_mod_to_equations.
 
-Definition LEN : N := 18446744073709551614.
-Definition RESET : N := 18446744073709551613.
-Definition WRITE : N := 18446744073709551612.
+(* LEN, RESET, WRITE: the effect tags, defined in OpHonest.v *)
 
 Definition ended (a : active) : bool := match a with ANone => true | _ => false end.
 
@@ -50,8 +48,18 @@ Proof. exact (i32_same y). Qed.
 
 (* ---- C_EncryptUpdate ------------------------------------------------------------------------------------------------- *)
 Definition enc_update_env (o : symop) (len : N) (buf : obuf) : SymEncryptUpdate.env :=
-  SymEncryptUpdate.mk (fun _ => 1) (fun _ _ => 1) BS (so_buf o) (b2n (is_block (so_mode o))) (have_of buf) (evp_enc_update_out o len)
-                      1 1 1 1 len (ptr_of buf) 1.
+  fold_right (fun f e => f e) SymEncryptUpdate.default
+    [(SymEncryptUpdate.set_cipher_checkMaximumBytes (fun _ => 1));
+     (SymEncryptUpdate.set_cipher_encryptUpdate_at1 (fun _ _ => 1));
+     (SymEncryptUpdate.set_cipher_getBlockSize BS);
+     (SymEncryptUpdate.set_cipher_getBufferSize (so_buf o));
+     (SymEncryptUpdate.set_cipher_isBlockCipher (b2n (is_block (so_mode o))));
+     (SymEncryptUpdate.set_deref_pulEncryptedDataLen (have_of buf));
+     (SymEncryptUpdate.set_hv2_encryptedData_size (evp_enc_update_out o len));
+     (SymEncryptUpdate.set_session_getAllowMultiPartOp 1);
+     (SymEncryptUpdate.set_session_getSymmetricCryptoOp 1);
+     (SymEncryptUpdate.set_ulDataLen len);
+     (SymEncryptUpdate.set_pEncryptedData (ptr_of buf))].
 
 Theorem enc_update_is_code (o : symop) (len : N) (buf : obuf) :
   so_enc o = true ->
@@ -80,8 +88,19 @@ Qed.
 
 (* ---- C_DecryptUpdate ------------------------------------------------------------------------------------------------- *)
 Definition dec_update_env (o : symop) (len : N) (buf : obuf) : SymDecryptUpdate.env :=
-  SymDecryptUpdate.mk (fun _ => 1) (fun _ _ => 1) BS (so_buf o) (b2n (so_pad o)) (b2n (is_block (so_mode o))) (evp_dec_update_out o len) (have_of buf)
-                      1 1 1 1 len (ptr_of buf) 1.
+  fold_right (fun f e => f e) SymDecryptUpdate.default
+    [(SymDecryptUpdate.set_cipher_checkMaximumBytes (fun _ => 1));
+     (SymDecryptUpdate.set_cipher_decryptUpdate_at1 (fun _ _ => 1));
+     (SymDecryptUpdate.set_cipher_getBlockSize BS);
+     (SymDecryptUpdate.set_cipher_getBufferSize (so_buf o));
+     (SymDecryptUpdate.set_cipher_getPaddingMode (b2n (so_pad o)));
+     (SymDecryptUpdate.set_cipher_isBlockCipher (b2n (is_block (so_mode o))));
+     (SymDecryptUpdate.set_deref_pDataLen (have_of buf));
+     (SymDecryptUpdate.set_hv2_decryptedData_size (evp_dec_update_out o len));
+     (SymDecryptUpdate.set_session_getAllowMultiPartOp 1);
+     (SymDecryptUpdate.set_session_getSymmetricCryptoOp 1);
+     (SymDecryptUpdate.set_ulEncryptedDataLen len);
+     (SymDecryptUpdate.set_pData (ptr_of buf))].
 
 Theorem dec_update_is_code (o : symop) (len : N) (buf : obuf) :
   so_enc o = false ->
@@ -120,8 +139,18 @@ Qed.
 Definition enc_final_out (o : symop) : N := if is_block (so_mode o) then (if so_pad o then BS else 0) else so_tag o.
 
 Definition enc_final_env (o : symop) (buf : obuf) : SymEncryptFinal.env :=
-  SymEncryptFinal.mk (fun _ => 1) BS (so_buf o) (b2n (so_pad o)) (so_tag o) (b2n (is_block (so_mode o))) (have_of buf) (enc_final_out o)
-                     1 1 1 (ptr_of buf) 1.
+  fold_right (fun f e => f e) SymEncryptFinal.default
+    [(SymEncryptFinal.set_cipher_encryptFinal_at1 (fun _ => 1));
+     (SymEncryptFinal.set_cipher_getBlockSize BS);
+     (SymEncryptFinal.set_cipher_getBufferSize (so_buf o));
+     (SymEncryptFinal.set_cipher_getPaddingMode (b2n (so_pad o)));
+     (SymEncryptFinal.set_cipher_getTagBytes (so_tag o));
+     (SymEncryptFinal.set_cipher_isBlockCipher (b2n (is_block (so_mode o))));
+     (SymEncryptFinal.set_deref_pulEncryptedDataLen (have_of buf));
+     (SymEncryptFinal.set_hv2_encryptedFinal_size (enc_final_out o));
+     (SymEncryptFinal.set_session_getAllowMultiPartOp 1);
+     (SymEncryptFinal.set_session_getSymmetricCryptoOp 1);
+     (SymEncryptFinal.set_pEncryptedData (ptr_of buf))].
 
 Theorem enc_final_is_code (o : symop) (buf : obuf) :
   so_enc o = true -> so_buf o + so_tag o + BS < M64 ->
@@ -165,8 +194,17 @@ Definition dec_final_out (o : symop) : N :=
   match so_mode o with GCM => so_buf o - so_tag o | _ => if is_block (so_mode o) && so_pad o then so_left o else 0 end.
 
 Definition dec_final_env (o : symop) (buf : obuf) : SymDecryptFinal.env :=
-  SymDecryptFinal.mk (fun _ => b2n (negb (dec_final_fails o))) BS (so_buf o) (b2n (so_pad o)) (b2n (is_block (so_mode o))) (dec_final_out o) (have_of buf)
-                     1 1 1 (ptr_of buf) 1.
+  fold_right (fun f e => f e) SymDecryptFinal.default
+    [(SymDecryptFinal.set_cipher_decryptFinal_at1 (fun _ => b2n (negb (dec_final_fails o))));
+     (SymDecryptFinal.set_cipher_getBlockSize BS);
+     (SymDecryptFinal.set_cipher_getBufferSize (so_buf o));
+     (SymDecryptFinal.set_cipher_getPaddingMode (b2n (so_pad o)));
+     (SymDecryptFinal.set_cipher_isBlockCipher (b2n (is_block (so_mode o))));
+     (SymDecryptFinal.set_deref_pulDecryptedDataLen (have_of buf));
+     (SymDecryptFinal.set_hv2_decryptedFinal_size (dec_final_out o));
+     (SymDecryptFinal.set_session_getAllowMultiPartOp 1);
+     (SymDecryptFinal.set_session_getSymmetricCryptoOp 1);
+     (SymDecryptFinal.set_pDecryptedData (ptr_of buf))].
 
 Theorem dec_final_is_code (o : symop) (buf : obuf) :
   so_enc o = false -> so_buf o < M64 ->
@@ -238,8 +276,19 @@ Definition enc_single_size (o : symop) (len : N) : N :=
   if is_block (so_mode o) then (if negb (rem =? 0) then sub64 (w64 (len + BS)) rem else if so_pad o then w64 (len + BS) else maxSize0) else maxSize0.
 
 Definition enc_single_env (o : symop) (len : N) (buf : obuf) : SymEncrypt.env :=
-  SymEncrypt.mk (fun _ => 1) (fun _ => 1) (fun _ _ => 1) BS (b2n (so_pad o)) (so_tag o) (b2n (is_block (so_mode o))) (have_of buf) (enc_single_size o len)
-                1 1 1 1 len (ptr_of buf) 1.
+  fold_right (fun f e => f e) SymEncrypt.default
+    [(SymEncrypt.set_cipher_checkMaximumBytes (fun _ => 1));
+     (SymEncrypt.set_cipher_encryptFinal_at2 (fun _ => 1));
+     (SymEncrypt.set_cipher_encryptUpdate_at1 (fun _ _ => 1));
+     (SymEncrypt.set_cipher_getBlockSize BS);
+     (SymEncrypt.set_cipher_getPaddingMode (b2n (so_pad o)));
+     (SymEncrypt.set_cipher_getTagBytes (so_tag o));
+     (SymEncrypt.set_cipher_isBlockCipher (b2n (is_block (so_mode o))));
+     (SymEncrypt.set_deref_pulEncryptedDataLen (have_of buf));
+     (SymEncrypt.set_session_getAllowSinglePartOp 1);
+     (SymEncrypt.set_session_getSymmetricCryptoOp 1);
+     (SymEncrypt.set_ulDataLen len);
+     (SymEncrypt.set_pEncryptedData (ptr_of buf))].
 
 Theorem enc_single_is_code (o : symop) (len : N) (buf : obuf) :
   so_enc o = true ->
@@ -269,8 +318,25 @@ Proof.
 Qed.
 
 (* HMAC C_SignFinal / C_Sign: a fixed-size result *)
-Definition mac_final_env (size : N) (buf : obuf) : MacSignFinal.env := MacSignFinal.mk (have_of buf) size (fun _ => 1) 1 size 1 (ptr_of buf) 1.
-Definition mac_single_env (size len : N) (buf : obuf) : MacSign.env := MacSign.mk (have_of buf) size (fun _ => 1) (fun _ => 1) 1 1 size 1 1 len (ptr_of buf) 1.
+Definition mac_final_env (size : N) (buf : obuf) : MacSignFinal.env :=
+  fold_right (fun f e => f e) MacSignFinal.default
+    [(MacSignFinal.set_deref_pulSignatureLen (have_of buf));
+     (MacSignFinal.set_hv2_signature_size size);
+     (MacSignFinal.set_mac_getMacSize size);
+     (MacSignFinal.set_mac_signFinal_at1 (fun _ => 1));
+     (MacSignFinal.set_session_getMacOp 1);
+     (MacSignFinal.set_pSignature (ptr_of buf))].
+Definition mac_single_env (size len : N) (buf : obuf) : MacSign.env :=
+  fold_right (fun f e => f e) MacSign.default
+    [(MacSign.set_deref_pulSignatureLen (have_of buf));
+     (MacSign.set_hv2_signature_size size);
+     (MacSign.set_mac_getMacSize size);
+     (MacSign.set_mac_signFinal_at2 (fun _ => 1));
+     (MacSign.set_mac_signUpdate_at1 (fun _ => 1));
+     (MacSign.set_session_getAllowSinglePartOp 1);
+     (MacSign.set_session_getMacOp 1);
+     (MacSign.set_ulDataLen len);
+     (MacSign.set_pSignature (ptr_of buf))].
 
 Theorem mac_final_is_code (size : N) (buf : obuf) :
   let r := fixed_out size (AMac size) buf in
@@ -307,4 +373,72 @@ Proof.
   destruct Hin as [E|[]]. injection E as E. subst n.
   replace (N.max have mx <? mx) with false by (symmetry; apply N.ltb_ge; lia).
   destruct (N.max have mx <? evp_enc_update_out o len); cbn [r_rv]; cbv [CKR_GENERAL_ERROR CKR_OK CKR_BUFFER_TOO_SMALL]; discriminate.
+Qed.
+
+Lemma norm_dec n :
+  norm ((18446744073709551613, 0) :: (18446744073709551614, n) :: (if negb (n =? 0) then [(18446744073709551612, n)] else []))
+  = (RESET, 0) :: (LEN, n) :: (if 0 <? n then [(WRITE, n)] else []).
+Proof.
+  destruct (N.eqb_spec n 0) as [E|E]; cbn [negb].
+  - subst. reflexivity.
+  - rewrite norm3. reflexivity.
+Qed.
+
+Ltac fin_single :=
+  unfold normr, eff_of; cbn [r_st r_len r_written ended app];
+  repeat (match goal with
+          | |- context [if ?a <? ?b then (?x, ?y) else _] => destruct (N.ltb_spec a b)
+          | |- context [if negb (?n =? 0) then (?x, ?y) else _] => destruct (N.eqb_spec n 0)
+          end; cbn [negb fst snd]);
+  repeat match goal with H : (_ <? _) = false |- _ => apply N.ltb_ge in H | H : (_ =? _) = false |- _ => apply N.eqb_neq in H end;
+  try (exfalso; lia);
+  first [ rewrite norm3; reflexivity
+        | match goal with E : ?n = 0 |- _ => rewrite ?E; reflexivity end
+        | reflexivity ].
+
+(* C_Decrypt *)
+Definition dec_single_fails (o : symop) (len : N) : bool :=
+  match so_mode o with
+  | GCM => len <? so_tag o
+  | _ => (is_block (so_mode o) && so_pad o && (len =? 0)) || (so_pad o && is_block (so_mode o) && (len <? so_left o))
+  end.
+Definition dec_single_out (o : symop) (len : N) : N :=
+  match so_mode o with GCM => len - so_tag o | _ => if so_pad o && is_block (so_mode o) then so_left o else len end.
+
+Definition dec_single_env (o : symop) (len : N) (buf : obuf) : SymDecrypt.env :=
+  fold_right (fun f e => f e) SymDecrypt.default
+    [(SymDecrypt.set_cipher_checkMaximumBytes (fun _ => 1));
+     (SymDecrypt.set_cipher_decryptFinal_at2 (fun _ => b2n (negb (dec_single_fails o len))));
+     (SymDecrypt.set_cipher_decryptUpdate_at1 (fun _ _ => 1));
+     (SymDecrypt.set_cipher_getBlockSize BS);
+     (SymDecrypt.set_cipher_isBlockCipher (b2n (is_block (so_mode o))));
+     (SymDecrypt.set_deref_pulDataLen (have_of buf));
+     (SymDecrypt.set_hv5_data_size (dec_single_out o len));
+     (SymDecrypt.set_session_getAllowSinglePartOp 1);
+     (SymDecrypt.set_session_getSymmetricCryptoOp 1);
+     (SymDecrypt.set_ulEncryptedDataLen len);
+     (SymDecrypt.set_pData (ptr_of buf))].
+
+Theorem dec_single_is_code (o : symop) (len : N) (buf : obuf) :
+  so_enc o = false ->
+  let r := sym_single o len buf in
+  normr (SymDecrypt.app (dec_single_env o len buf)) = (r_rv r, eff_of r).
+Proof.
+  intros He. unfold dec_single_env, dec_single_fails, dec_single_out. SymDecrypt.open_env.
+  unfold sym_single. rewrite He. cbn [N.eqb negb orb Pos.eqb].
+  destruct (is_block (so_mode o)) eqn:Hb; cbn [b2n N.eqb negb Pos.eqb andb].
+  - destruct (len mod BS =? 0) eqn:Em; cbn [negb]; [|reflexivity].
+    destruct buf as [have|]; cbn [ptr_of have_of N.eqb Pos.eqb]; [|reflexivity].
+    destruct (have <? len) eqn:E1; [reflexivity|].
+    destruct (so_mode o) eqn:Hm; try discriminate Hb; cbn [andb orb].
+    all: destruct (so_pad o) eqn:Hp; cbn [andb orb b2n negb N.eqb Pos.eqb].
+    all: try (destruct (len =? 0) eqn:E0; cbn [orb b2n negb N.eqb Pos.eqb]; [reflexivity|];
+              destruct (len <? so_left o) eqn:E2; cbn [b2n negb N.eqb Pos.eqb]; [reflexivity|]).
+    all: fin_single.
+  - destruct buf as [have|]; cbn [ptr_of have_of N.eqb Pos.eqb]; [|reflexivity].
+    destruct (have <? len) eqn:E1; [reflexivity|].
+    destruct (so_mode o) eqn:Hm; try discriminate Hb; cbn [andb orb b2n negb N.eqb Pos.eqb];
+      rewrite ?andb_false_r; cbn [andb orb b2n negb N.eqb Pos.eqb].
+    all: try (destruct (len <? so_tag o) eqn:E2; cbn [b2n negb N.eqb Pos.eqb]; [reflexivity|]).
+    all: fin_single.
 Qed.
